@@ -144,10 +144,14 @@ impl VouchedTime {
             return Err(std::io::Error::other("base_time does not match voucher"));
         }
 
-        Self::check_vouched_time(
-            local_time.assume_utc().unix_timestamp_nanos() / 1_000_000,
-            base_time_ms,
-        )
+        let local_time_ns = local_time.assume_utc().unix_timestamp_nanos();
+        if local_time_ns < 0 {
+            // The division below truncates toward zero: a local time less
+            // than one millisecond before the epoch would look like the epoch.
+            return Err(std::io::Error::other("local_time is before the Unix epoch"));
+        }
+
+        Self::check_vouched_time(local_time_ns / 1_000_000, base_time_ms)
     }
 
     fn check_vouched_time(local_time_ms: i128, base_time_ms: u64) -> Result<()> {
